@@ -221,7 +221,7 @@ fn f_module(d: &mut Draw, k: usize) -> Feature {
     let w = d.usize_in(2, 12);
     let ov = d.usize_in(2, 12);
     let decl = format!(
-        "{}pub module Core{k} #(\n{}    param WIDTH: u32 = {w},\n    const DEPTH: u32 = WIDTH * 2,\n    param T    : type = logic<WIDTH>,\n) (\n    i_clk: input  clock       , /// clock\n    i_rst: input  reset       ,\n    i_en : input  logic       ,\n    i_d  : input  logic<WIDTH>,\n    o_q  : output logic<WIDTH>,\n    o_t  : output T           ,\n) {{\n    var r  : logic<WIDTH>;\n    var nxt: logic<WIDTH>;\n    function sat (\n        x: input logic<WIDTH>,\n    ) -> logic<WIDTH> {{\n        if x >: DEPTH[WIDTH - 1:0] {{\n            return DEPTH[WIDTH - 1:0];\n        }} else {{\n            return x;\n        }}\n    }}\n    always_comb {{\n        nxt = r;\n        for i: u32 in 0..WIDTH {{\n            if i_en {{\n                nxt[i] = i_d[i];\n            }}\n        }}\n        case i_d[1:0] {{\n            2'd0   : nxt = sat(nxt);\n            2'd1, 2: nxt = nxt + 1;\n            default: {{\n                nxt = nxt;\n            }}\n        }}\n    }}\n    always_ff {{\n        if_reset {{\n            r = 0;\n        }} else if i_en {{\n            r = nxt;\n        }}\n    }}\n    assign o_q = r;\n    assign o_t = 0;\n}}\n",
+        "{}pub module Core{k} #(\n{}    param WIDTH: u32 = {w},\n    const DEPTH: u32 = WIDTH * 2,\n    param T    : type = logic<WIDTH>,\n) (\n    i_clk: input  clock       , /// clock\n    i_rst: input  reset       ,\n    i_en : input  logic       ,\n    i_d  : input  logic<WIDTH>,\n    o_q  : output logic<WIDTH>,\n    o_t  : output T           ,\n) {{\n    var r  : logic<WIDTH>;\n    var nxt: logic<WIDTH>;\n    function sat (\n        x: input logic<WIDTH>,\n    ) -> logic<WIDTH> {{\n        if x >: DEPTH[WIDTH - 1:0] {{\n            return DEPTH[WIDTH - 1:0];\n        }} else {{\n            return x;\n        }}\n    }}\n    always_comb {{\n        nxt = r;\n        for i in 0..WIDTH {{\n            if i_en {{\n                nxt[i] = i_d[i];\n            }}\n        }}\n        case i_d[1:0] {{\n            2'd0   : nxt = sat(nxt);\n            2'd1, 2: nxt = nxt + 1;\n            default: {{\n                nxt = nxt;\n            }}\n        }}\n    }}\n    always_ff {{\n        if_reset {{\n            r = 0;\n        }} else if i_en {{\n            r = nxt;\n        }}\n    }}\n    assign o_q = r;\n    assign o_t = 0;\n}}\n",
         doc(d, ""),
         doc(d, "    "),
     );
@@ -261,7 +261,7 @@ fn f_attributes(d: &mut Draw, k: usize) -> Feature {
         "module Attr{k} #(\n    #[ifdef({def})]\n    param PA: u32 = 1,\n    #[ifndef({def})]\n    param PB: u32 = 2,\n    param PC: u32 = 3,\n) (\n    #[ifdef({def})]\n    port_x: input logic,\n    #[else]\n    port_y: input logic,\n    port_d: input logic,\n) {{\n    #[sv(\"ram_style=\\\"block\\\"\")]\n    let _a: logic = port_d;\n    #[allow(unused_variable)]\n    let b: logic = 1;\n    #[ifdef({def})]\n    {{\n        let _c: logic<10> = 1;\n        let _e: logic<10> = 2;\n    }}\n    #[enum_encoding(onehot)]\n    enum E1 {{\n        A,\n        B,\n        C,\n    }}\n    #[enum_member_prefix(pre)]\n    enum E2 {{\n        M0,\n        M1,\n    }}\n    let _f: E1 = E1::B;\n    let _g: E2 = E2::M1;\n    var _h: logic;\n    always_comb {{\n        #[cond_type(unique)]\n        case port_d {{\n            0      : _h = 1;\n            default: _h = 0;\n        }}\n    }}\n    #[fmt(compact)]\n    {{\n        let _i: logic = 0;\n    }}\n    #[align(number, identifier)]\n    {{\n        let _j : logic<8> = 1;\n        let _kk: logic<8> = 100;\n    }}\n}}\n"
     );
     let use_ = format!(
-        "module AttrTop{k} {{\n    #[allow(missing_port, unknown_port)]\n    inst u: Attr{k} #(\n        PC: Cfg{k}::SEL,\n    ) (\n        port_y: 0,\n        port_d: 1,\n    );\n    #[ifndef({def})]\n    let _s: logic<Cfg{k}::SEL> = 0;\n}}\n"
+        "module AttrTop{k} {{\n    #[allow(missing_port)]\n    inst u: Attr{k} #(\n        PC: Cfg{k}::SEL,\n    ) (\n        port_y: 0,\n        port_d: 1,\n    );\n    #[ifndef({def})]\n    let _s: logic<Cfg{k}::SEL> = 0;\n}}\n"
     );
     Feature {
         name: "attributes(ifdef/else, allow, sv, enum_*, cond_type, fmt, align)",
@@ -275,16 +275,16 @@ fn f_attributes(d: &mut Draw, k: usize) -> Feature {
 /// then refers to a symbol of another file — or not, depending on the order)
 fn f_unsafe(d: &mut Draw, k: usize) -> Feature {
     let collide = d.chance(1, 3);
-    let la = if collide { format!("dom{k}") } else { "a".to_string() };
+    let la = if collide { format!("lbl{k}") } else { "a".to_string() };
     let decl = format!(
         "module Cdc{k} (\n    i_clk_a: input  '{la} clock,\n    i_dat  : input  '{la} logic,\n    i_clk_b: input  'b clock,\n    o_dat  : output 'b logic,\n) {{\n    unsafe (cdc) {{\n        assign o_dat = i_dat;\n    }}\n}}\n"
     );
     let use_ = format!(
-        "module CdcTop{k} (\n    ca: input  'x clock,\n    cb: input  'y clock,\n    d : input  'x logic,\n    q : output 'y logic,\n) {{\n    inst u: Cdc{k} (\n        i_clk_a: ca,\n        i_dat  : d ,\n        i_clk_b: cb,\n        o_dat  : q ,\n    );\n}}\n"
+        "module CdcTop{k} (\n    ca: input  'm clock,\n    cb: input  'n clock,\n    d : input  'm logic,\n    q : output 'n logic,\n) {{\n    inst u: Cdc{k} (\n        i_clk_a: ca,\n        i_dat  : d ,\n        i_clk_b: cb,\n        o_dat  : q ,\n    );\n}}\n"
     );
     let mut uses = vec![use_];
     if collide {
-        uses.push(format!("package dom{k} {{\n    const Z: u32 = 1;\n}}\n"));
+        uses.push(format!("package lbl{k} {{\n    const Z: u32 = 1;\n}}\n"));
     }
     Feature {
         name: if collide {
@@ -325,10 +325,10 @@ fn f_embed(d: &mut Draw, k: usize) -> Feature {
 fn f_raw(d: &mut Draw, k: usize) -> Feature {
     let _ = d;
     let decl = format!(
-        "pub package r#RawP{k} {{\n    const r#module: u32 = 3;\n}}\nmodule RawM{k} (\n    r#in : input  logic<3>,\n    r#out: output logic<3>,\n) {{\n    assign r#out = r#in;\n}}\n"
+        "pub package r#RawP{k} {{\n    const r#param: u32 = 3;\n}}\nmodule RawM{k} (\n    r#inst: input  logic<3>,\n    r#msb : output logic<3>,\n) {{\n    assign r#msb = r#inst;\n}}\n"
     );
     let use_ = format!(
-        "module RawTop{k} {{\n    var r#reset: logic<RawP{k}::r#module>;\n    inst u: RawM{k} (\n        r#in : 1      ,\n        r#out: r#reset,\n    );\n    let _x: logic<r#RawP{k}::r#module> = r#reset;\n}}\n"
+        "module RawTop{k} {{\n    var r#reset: logic<RawP{k}::r#param>;\n    inst u: RawM{k} (\n        r#inst: 1      ,\n        r#msb : r#reset,\n    );\n    let _x: logic<r#RawP{k}::r#param> = r#reset;\n}}\n"
     );
     Feature {
         name: "raw identifiers",
@@ -339,7 +339,7 @@ fn f_raw(d: &mut Draw, k: usize) -> Feature {
 
 /// module whose doc comment carries wavedrom blocks (checked in post-pass2)
 fn f_wavedrom(d: &mut Draw, k: usize) -> Feature {
-    let bad = d.chance(1, 2);
+    let bad = d.chance(1, 4);
     let body = if bad {
         "/// {signal: [\n///   {name: 'clk', wave: 'p..'},\n///   {name: 'nosuch', wave: 'x.3'\n/// ]}\n"
     } else {
@@ -363,7 +363,7 @@ fn f_misc(d: &mut Draw, k: usize) -> Feature {
         "package Msc{k} {{\n    enum Color {{\n        Red,\n        Green,\n    }}\n    const WW: u32 = {w};\n}}\ninterface MscIf{k} {{\n    var v: logic<Msc{k}::WW>;\n    modport mst {{\n        v: output,\n    }}\n    modport slv {{\n        ..converse(mst)\n    }}\n}}\nmodule MscTgt{k} (\n    i_clk: input clock,\n) {{\n    let b: logic<Msc{k}::WW> = 0;\n}}\nmodule MscProbe{k} (\n    i_clk: input clock                ,\n    b    : input logic<Msc{k}::WW>,\n) {{}}\n"
     );
     let use1 = format!(
-        "module MscUse{k} (\n    s: modport MscIf{k}::slv,\n    m: modport MscIf{k}::mst,\n) {{\n    import Msc{k}::Color::*;\n    let c: Msc{k}::Color = Green;\n    var x: logic<Msc{k}::WW>;\n    assign x[msb:lsb] = if c == Red ? 0 : 1;\n    let _y: logic = x[msb];\n    connect m <> s;\n}}\n"
+        "module MscUse{k} (\n    s: modport MscIf{k}::slv,\n    m: modport MscIf{k}::mst,\n) {{\n    import Msc{k}::Color::*;\n    let c: Msc{k}::Color = Green;\n    var x: logic<Msc{k}::WW>;\n    assign x = if c == Red ? 0 : 1;\n    let _y: logic = x[msb];\n    let _z: logic<Msc{k}::WW> = x[msb:lsb];\n    connect m <> s;\n}}\n"
     );
     let use2 = format!("bind MscTgt{k} <- u_p{k}: MscProbe{k} (\n    i_clk,\n    b    ,\n);\n");
     Feature {
@@ -438,8 +438,12 @@ pub fn all_feature_names() -> Vec<&'static str> {
 
 /// One feature alone, declarations in file `a`, users in file `b` (self-test
 /// of the templates).
-pub fn single_feature(which: u32) -> Vec<(String, String)> {
-    let mut d = Draw::new(vec![]);
+pub fn single_feature(which: u32, variant: u32) -> Vec<(String, String)> {
+    // variant 0: all-zero choices (simplest alternatives); others: fixed pseudo-random
+    let choices: Vec<u32> = (0..200u32)
+        .map(|i| if variant == 0 { 0 } else { (i.wrapping_mul(2654435761).wrapping_add(variant.wrapping_mul(0x9E3779B9))).rotate_left(variant * 7) })
+        .collect();
+    let mut d = Draw::new(choices);
     let f = feature(&mut d, which, 0);
     vec![("a".into(), f.decl.concat()), ("b".into(), f.uses.concat())]
 }
@@ -447,7 +451,10 @@ pub fn single_feature(which: u32) -> Vec<(String, String)> {
 pub fn file_set(d: &mut Draw) -> FileSet {
     let nfeat = d.usize_in(1, 4);
     let nfiles = d.usize_in(2, 4);
-    let mut files: Vec<Vec<String>> = vec![vec![]; nfiles];
+    // per file: declarations first, then users (a package has to be
+    // declared before the point it is referred to inside the same file)
+    let mut decls: Vec<Vec<String>> = vec![vec![]; nfiles];
+    let mut users: Vec<Vec<String>> = vec![vec![]; nfiles];
     let mut classes = Vec::new();
     for k in 0..nfeat {
         let which = d.below(N_FEATURES + 1);
@@ -457,7 +464,7 @@ pub fn file_set(d: &mut Draw) -> FileSet {
         let home = d.below_usize(nfiles);
         for item in f.decl {
             let at = if d.chance(1, 5) { d.below_usize(nfiles) } else { home };
-            files[at].push(item);
+            decls[at].push(item);
         }
         for item in f.uses {
             let at = if d.chance(1, 6) {
@@ -465,20 +472,24 @@ pub fn file_set(d: &mut Draw) -> FileSet {
             } else {
                 (home + 1 + d.below_usize(nfiles - 1)) % nfiles
             };
-            // file-level imports must stay in front of what uses them: the
-            // item is kept whole, so that holds
-            files[at].push(item);
+            users[at].push(item);
         }
     }
-    // order of the items inside a file
     let mut out = Vec::new();
-    for (i, mut items) in files.into_iter().enumerate() {
-        for j in (1..items.len()).rev() {
-            let r = d.below_usize(j + 1);
-            items.swap(j, r);
-        }
+    for i in 0..nfiles {
+        let mut text = String::new();
         let sep = if d.chance(1, 4) { "\n\n" } else { "\n" };
-        let mut text = items.join(sep);
+        for group in [&mut decls[i], &mut users[i]] {
+            // features do not depend on each other: any order of the groups' items
+            for j in (1..group.len()).rev() {
+                let r = d.below_usize(j + 1);
+                group.swap(j, r);
+            }
+            for item in group.iter() {
+                text.push_str(item);
+                text.push_str(sep);
+            }
+        }
         if text.is_empty() {
             text = format!("// empty part {i}\n");
         }
@@ -502,6 +513,11 @@ pub fn split_corpus_file(d: &mut Draw, items: &[super::corpus::Item]) -> Vec<Str
             let at = d.below_usize(nparts);
             parts[at].push_str(&it.text);
             parts[at].push('\n');
+        }
+    }
+    for (j, p) in parts.iter_mut().enumerate() {
+        if p.trim().is_empty() {
+            *p = format!("// part {j} got no item\n");
         }
     }
     parts
